@@ -7,6 +7,10 @@ def main(argv):
     if len(argv) >= 2 and argv[1] == "setup":
         import setup_all
         return setup_all.main()
+    if len(argv) >= 2 and argv[1] == "fingerprints":
+        out = common.record_fingerprints()
+        print("recorded fingerprints for %d properties" % len(out))
+        return 0
     if len(argv) >= 3 and argv[1] == "replay":
         return common.replay_file(argv[2])
     if len(argv) < 2:
